@@ -83,7 +83,7 @@ def _sides(tier, centre_side):
 
 CENTRES = [
     dict(name='statmech', cls=0, R=['SG'], P=['SA'], TS=1),
-    dict(name='empirical', cls=1, R=['NG'], P=['NS'], TS=2),
+    dict(name='empirical', cls=1, R=['XSG'], P=['NS'], TS=2),
     dict(name='mixed-bep', cls=2, R=['SG', 'NS'], P=['CM'], TS=3),
 ]
 
